@@ -53,9 +53,10 @@ func TestVerifC02Authority(t *testing.T) {
 	vC02AuthServer = packetConn.LocalAddr().String()
 	for c := 0; c < n; c++ {
 		g.newPool(true)
-		apex := vC02Name{g.poolLabel()}
+		plain := func() []byte { return []byte{"abcxyz"[r.Intn(6)]} } // apex: ordinary labels (it names the DNSKEY/DS)
+		apex := vC02Name{plain()}
 		if r.Intn(3) == 0 {
-			apex = vC02Name{g.poolLabel(), g.poolLabel()}
+			apex = vC02Name{plain(), plain()}
 		}
 		for i := range apex { // the RRSIG signer / DS owner spelling is the caller's business (C01): keep the apex lower case
 			apex[i] = vC02FoldLabel(apex[i])
